@@ -90,6 +90,7 @@ func main() {
 	scratchRoot = p.Scratch
 	fmt.Printf("c14: mode=%s sites=%d flagged=%d files=%d build=%.1fs %s\n", p.Mode, p.Instr.NumSites, p.Instr.Flagged, len(p.Instr.Files), p.BuildS, p.Go)
 	if p.Mode == "degraded" {
+		defaultGOMAXPROCS = 4
 		fmt.Printf("c14: DEGRADED MODE (%s): real goroutines under the race detector, failures not replayable\n", p.Why)
 	}
 	if *prepOnly {
